@@ -97,6 +97,7 @@ pub struct SimCtl {
     /// Sequence number of the last injected fault (for bounded liveness).
     pub last_fault_step: Cell<u64>,
     pub step: Cell<u64>,
+    selects_in_poll: Cell<u64>,
 }
 
 impl SimCtl {
@@ -113,6 +114,7 @@ impl SimCtl {
             quiet: Cell::new(false),
             last_fault_step: Cell::new(0),
             step: Cell::new(0),
+            selects_in_poll: Cell::new(0),
         })
     }
 
@@ -231,6 +233,15 @@ impl SimHook for SimCtl {
     }
 
     fn event(&self, pid: Pid, kind: &'static str, a: i64, b: i64) {
+        if kind == "select" {
+            // not part of the history; only a liveness guard
+            let n = self.selects_in_poll.get() + 1;
+            self.selects_in_poll.set(n);
+            if n > 300_000 {
+                panic!("livelock: process {pid} polled select {n} times without yielding to the scheduler");
+            }
+            return;
+        }
         if kind == "fork" {
             self.new_child_pids.borrow_mut().push(Pid(a as i32));
         }
@@ -488,6 +499,7 @@ impl Sim {
             let waker = Waker::from(Arc::clone(&slot.flag));
             let mut cx = Context::from_waker(&waker);
             sim_hook::set_current_pid(slot.pid);
+            self.ctl.selects_in_poll.set(0);
             let fut = slot.fut.as_mut().unwrap();
             let poll = fut.as_mut().poll(&mut cx);
             sim_hook::set_current_pid(None);
